@@ -299,6 +299,7 @@ def write_evidence(pid, tier, seed, level, res: Res, rule, assumptions, wall_s, 
         "samples": [s for _, s in res.samples][: Res.MAX_SAMPLES],
         "labels": dict(sorted(res.labels.items())),
         "known_finding_hits": dict(sorted(res.kf.items())),
+        "known_finding_examples": {k: res.kf_examples[k] for k in sorted(res.kf_examples)},
         "discarded": dict(sorted(res.discards.items())),
         "budget_exhausted": bool(res.budget_exhausted),
     }
